@@ -5,7 +5,7 @@ From Coq Require Import String.
 From Coq Require Import List NArith Arith Bool Lia ZArith ZifyBool ZifyN ZifyNat.
 From Coq.Strings Require Import Byte.
 From Model Require Import Bytes Digest.
-From Proofs Require Import BytesFacts.
+From Proofs Require Import BytesFacts FrameFacts.
 Import ListNotations.
 Open Scope N_scope.
 
@@ -235,3 +235,32 @@ Proof. vm_compute. reflexivity. Qed.
 Example sha1_empty : map b2n (sha1 []) =
   [218; 57; 163; 238; 94; 107; 75; 13; 50; 85; 191; 239; 149; 96; 24; 144; 175; 216; 7; 9].
 Proof. vm_compute. reflexivity. Qed.
+
+(* the padding is a faithful encoding: two messages (shorter than 2^61 bytes) with the same padded form are equal -- whatever
+   makes two keys share a digest, it is not the padding *)
+Lemma be_encode8_inj a b : a < 18446744073709551616 -> b < 18446744073709551616 -> be_encode 8 a = be_encode 8 b -> a = b.
+Proof.
+  intros Ha Hb H. rewrite <- (Proofs.FrameFacts.be_roundtrip 8 a), <- (Proofs.FrameFacts.be_roundtrip 8 b) by assumption.
+  rewrite H. reflexivity.
+Qed.
+
+Lemma sha1_pad_tail m : skipn (length (sha1_pad m) - 8) (sha1_pad m) = be_encode 8 (8 * blen m).
+Proof.
+  unfold sha1_pad.
+  set (z := repeat x00 (N.to_nat ((119 - blen m mod 64) mod 64))).
+  change (m ++ x80 :: z ++ be_encode 8 (8 * blen m)) with (m ++ (x80 :: z) ++ be_encode 8 (8 * blen m)).
+  rewrite app_assoc. rewrite app_length, be_encode_length.
+  replace (length (m ++ x80 :: z) + 8 - 8)%nat with (length (m ++ x80 :: z)) by lia.
+  rewrite skipn_app, skipn_all, Nat.sub_diag. reflexivity.
+Qed.
+
+Theorem sha1_pad_inj m m' : blen m < 2305843009213693952 -> blen m' < 2305843009213693952 ->
+  sha1_pad m = sha1_pad m' -> m = m'.
+Proof.
+  intros Hm Hm' H.
+  assert (T : be_encode 8 (8 * blen m) = be_encode 8 (8 * blen m')).
+  { rewrite <- !sha1_pad_tail, H. reflexivity. }
+  apply be_encode8_inj in T; [|lia|lia].
+  assert (L : length m = length m') by (unfold blen in T; lia).
+  rewrite <- (sha1_pad_prefix m), <- (sha1_pad_prefix m'), H, L. reflexivity.
+Qed.
